@@ -76,9 +76,11 @@ func main() {
 				}
 			}
 		}
+		turns := make([]uint64, n) // the local turn counter of every server (the hook counts the same way)
 		turn := func(i int, cancelled bool) {
 			before := views()[i]
 			ms[i].Turn(cancelled)
+			turns[i]++
 			op := map[string]interface{}{"op": "turn", "srv": i, "cancel": cancelled}
 			ops = append(ops, op)
 			run.OpLine(op)
@@ -116,6 +118,15 @@ func main() {
 			}
 			if cancelled {
 				run.Count("c14:failed_turn")
+			}
+			// a turn without failures of the server the record names (as leader, or as a follower that finds its own id
+			// there and resumes) refreshes the record with the server's own current turn number: that is what lets the
+			// others see it is alive
+			if !cancelled && inst == id {
+				run.Count("c14:holder_turn_checked")
+				if tick != turns[i] {
+					fail("renewal_visible", "holder-turn-did-not-refresh-record", fmt.Sprintf("server %d took turn %d without failures while the record names it, but the record carries turn %d: its renewal is invisible to the others", id, turns[i], tick))
+				}
 			}
 		}
 		// phase 1: arbitrary schedules, pauses and failed turns (safety)
